@@ -1188,6 +1188,10 @@ func (env *Environment) setState(state string) {
 	}
 	env.Mu.Lock()
 	defer env.Mu.Unlock()
+	if state == "ERROR" && env.Sm.Current() == "DONE" {
+		// DONE is terminal: a late caller whose GO_ERROR was refused must not bring a destroyed environment back
+		return
+	}
 	env.Sm.SetState(state)
 }
 
